@@ -416,7 +416,7 @@ theorem spawn_spec (s : Sim) (wi : Int) (off : UInt64) (hwf : s.WF) (hc : s.Code
         have : s.m = 0 := by simpa using h0
         rw [this] at hmpos; simp at hmpos
       rw [if_neg hm0]
-      apply Ok.bind (spawn_fold s.m off s.warriors[wi.toNat].data.code hmpos (hc _ hlt)
+      apply Ok.bind (spawn_fold s.m (off % s.m) s.warriors[wi.toNat].data.code hmpos (hc _ hlt)
         (List.range s.warriors[wi.toNat].data.code.size) s.mem
         (fun i hi => List.mem_range.mp hi) hwf.size hwf.fields)
       rintro mem ⟨hms, hmf⟩
